@@ -60,6 +60,8 @@ class Module:
         self.aliases = {}
         for m in re.finditer(r'^@("[^"]+"|[\w.$]+) = [^\n]*?\balias [^\n]*?@("[^"]+"|[\w.$]+)\s*$', text, re.M):
             self.aliases[m.group(1).strip('"')] = m.group(2).strip('"')
+        self.addr_taken = set()
+        self.icalls = {}    # dispatcher name -> (return C type, [argument C types])
         self.aggs = {}      # C struct name -> list of field C types
         self.externs = {}
         self.used_globals = set()
@@ -167,7 +169,7 @@ class FuncTranslator:
             g = tok[1:].strip('"')
             g = mod.aliases.get(g, g)
             if g in mod.funcs or g in mod.decls:
-                self.callees.add(g)
+                self.callees.add(g); mod.addr_taken.add(g)
                 if g not in mod.funcs: mod.externs.setdefault(g, ('void', []))
                 return '((char*)&%s)' % cname(g)
             mod.used_globals.add(g); return '((char*)&g_%s)' % re.sub(r'\W', '_', g)
@@ -298,6 +300,9 @@ class FuncTranslator:
         out.append('}')
         return '\n'.join(out)
 
+    def sig(self):
+        return (self.mod.ctype(self.rett), tuple(self.mod.ctype(t) for t, n in self.params))
+
     def proto(self):
         mod = self.mod
         ps = ', '.join('%s' % mod.ctype(t) for t, n in self.params)
@@ -343,8 +348,11 @@ class FuncTranslator:
         avals = [self.val(v, t) for t, v in args]
         if callee.startswith('%'):
             # indirect call through a function pointer
-            fty = '%s (*)(%s)' % (mod.ctype(rty), ', '.join(mod.ctype(t) for t, v in args) or 'void')
-            finish('((%s)%s)(%s)' % (fty, self.val(callee), ', '.join(avals)))
+            # indirect call: explicit dispatch over the address-taken functions of the same signature
+            sig = (mod.ctype(rty), tuple(mod.ctype(t) for t, v in args))
+            dn = 'ir2c_icall_' + re.sub(r'\W+', '_', sig[0] + '__' + '_'.join(sig[1]))
+            mod.icalls[dn] = sig
+            finish('%s(%s)' % (dn, ', '.join([self.val(callee)] + avals)))
             return
         f = callee[1:].strip('"')
         f = mod.aliases.get(f, f)
@@ -389,6 +397,15 @@ class FuncTranslator:
             mm = re.match(r'llvm\.mem(cpy|move|set)', f)
             if mm:
                 fn = 'mem' + mm.group(1)
+                szm = re.fullmatch(r'\((\d+)L\)', avals[2].strip())
+                if szm and int(szm.group(1)) <= 256 and int(szm.group(1)) % 8 == 0 and (mm.group(1) != 'set' or re.fullmatch(r'\(0L\)', avals[1].strip())):
+                    # small constant-size block operations become word accesses (no byte-level array reasoning)
+                    nw = int(szm.group(1)) // 8
+                    if mm.group(1) == 'set': body = ' '.join('((char**)d_)[%d] = 0;' % k for k in range(nw)); hdr = 'char* d_ = %s;' % avals[0]
+                    else:
+                        hdr = 'char* d_ = %s; char* s_ = %s; char* w_[%d];' % (avals[0], avals[1], nw)
+                        body = ' '.join('w_[%d] = ((char**)s_)[%d];' % (k, k) for k in range(nw)) + ' ' + ' '.join('((char**)d_)[%d] = w_[%d];' % (k, k) for k in range(nw))
+                    finish('{ %s %s }' % (hdr, body), True); return
                 if mm.group(1) == 'set': finish('memset(%s, (int)(unsigned char)%s, (unsigned long)%s)' % tuple(avals[:3]), True)
                 else: finish('%s(%s, %s, (unsigned long)%s)' % ((fn,) + tuple(avals[:3])), True)
                 return
@@ -454,7 +471,8 @@ class FuncTranslator:
         if op == 'icmp':
             pm_ = re.match(r'icmp (\w+) (.*)$', rhs); pred = pm_.group(1); pa = split_top(pm_.group(2)); mm = re.match(R(r'(<T>) (.+)$'), pa[0]); ty, a, b = mm.group(1), mm.group(2), pa[1]
             c = {'eq': '==', 'ne': '!=', 'lt': '<', 'le': '<=', 'gt': '>', 'ge': '>='}[pred[-2:]]
-            if ty.endswith('*'): f = lambda t, e: '((unsigned long)(%s))' % e
+            if ty.endswith('*') and pred in ('eq', 'ne'): f = lambda t, e: '((char*)(%s))' % e      # no pointer-to-integer conversion
+            elif ty.endswith('*'): f = lambda t, e: '((unsigned long)(%s))' % e
             else: f = self.scast if pred.startswith('s') else self.cast
             self.decls[self.val(dst)] = 'unsigned char'
             self.code.append('  %s = (%s %s %s);' % (self.val(dst), f(ty, self.val(a, ty)), c, f(ty, self.val(b, ty)))); return
@@ -515,7 +533,7 @@ class FuncTranslator:
             cnt = self.val(mm.group(3)) if mm.group(3) else '1'
             if mm.group(3): self.code.append('  %s = ir2c_alloc((unsigned long)%s * %d);' % (self.val(dst), cnt, n))
             else:
-                self.decls[buf + '[%d]' % max(1, (n + 7) // 8)] = 'unsigned long'
+                self.decls[buf + '[%d]' % max(1, (n + 7) // 8)] = 'char*'
                 self.code.append('  %s = (char*)%s;' % (self.val(dst), buf))
             self.decls[self.val(dst)] = 'char*'; self.stack.add(dst); return
         if op == 'getelementptr':
@@ -559,13 +577,14 @@ def translate(text, entries, hook_funcs=(), nohook=()):
             def __contains__(self, f): return f not in nohook
         hook_funcs = _All()
     todo, done, bodies, protos = list(entries), set(), [], []
+    sigs = {}
     while todo:
         f = todo.pop()
         if f in done: continue
         done.add(f)
         if f not in mod.funcs: raise Unsupported('entry %s not defined in the module' % f)
         ft = FuncTranslator(mod, f, signal_hook=f in hook_funcs)
-        bodies.append(ft.translate()); protos.append(ft.proto())
+        bodies.append(ft.translate()); protos.append(ft.proto()); sigs[f] = ft.sig()
         for c in ft.callees:
             if c in mod.funcs and c not in done: todo.append(c)
     out = ['/* generated by ir2c.py -- do not edit */', '#include "ir2c_rt.h"', 'void verif_maybe_signal(void);']
@@ -624,7 +643,7 @@ def translate(text, entries, hook_funcs=(), nohook=()):
                 elems = re.findall(r'i\d+ (-?\d+)', gm.group(2))
                 if len(elems) != int(am.group(1)): raise Unsupported('global initializer ' + g)
                 gdecl.append('%s %s[%s] = { %s };' % (mod.ctype(am.group(2)), cg, am.group(1), ', '.join('(%s)%sL' % (mod.ctype(am.group(2)), e) for e in elems))); continue
-            gdecl.append('unsigned long %s[%d];  /* %s */' % (cg, max(1, (size + 7) // 8), init[:60].replace('*/', '')))
+            gdecl.append('char* %s[%d];  /* %s */' % (cg, max(1, (size + 7) // 8), init[:60].replace('*/', '')))
             if gm and not init.startswith('external'):
                 emit_const(gm.group(1), gm.group(2) or '', '(char*)%s' % cg, 0)
         return progress
@@ -634,13 +653,13 @@ def translate(text, entries, hook_funcs=(), nohook=()):
         for c in list(helper.callees):
             if c in mod.funcs and c not in done:
                 done.add(c); ft = FuncTranslator(mod, c, signal_hook=c in hook_funcs)
-                bodies.append(ft.translate()); protos.append(ft.proto()); p2 = True
+                bodies.append(ft.translate()); protos.append(ft.proto()); sigs[c] = ft.sig(); p2 = True
                 todo = [x for x in ft.callees if x in mod.funcs and x not in done]
                 while todo:
                     f = todo.pop()
                     if f in done: continue
                     done.add(f); ft2 = FuncTranslator(mod, f, signal_hook=f in hook_funcs)
-                    bodies.append(ft2.translate()); protos.append(ft2.proto())
+                    bodies.append(ft2.translate()); protos.append(ft2.proto()); sigs[f] = ft2.sig()
                     todo += [x for x in ft2.callees if x in mod.funcs and x not in done]
         if not p1 and not p2: break
     out += gdecl
@@ -649,6 +668,20 @@ def translate(text, entries, hook_funcs=(), nohook=()):
     for f, (rty, atys) in sorted(mod.externs.items()):
         if f in ('strlen', 'strerror', 'memcmp', 'strcmp', 'abort', 'memchr', 'malloc', 'free'): continue
         out.append('extern %s %s(%s);' % (mod.ctype(rty), cname(f), ', '.join(mod.ctype(t) for t in atys) or 'void'))
+    for dn, (rt, ats) in sorted(mod.icalls.items()):
+        protos.append('%s %s(%s);' % (rt, dn, ', '.join(['char*'] + list(ats))))
+        cands = [f for f in sorted(mod.addr_taken) if f in sigs and sigs[f] == (rt, ats)]
+        b = ['%s %s(%s) {' % (rt, dn, ', '.join(['char* fp'] + ['%s a%d' % (t, k) for k, t in enumerate(ats)]))]
+        call = '(%s)' % ', '.join('a%d' % k for k in range(len(ats)))
+        # nesting bound (reported if exceeded): keeps the symbolic execution from unrolling dispatcher recursion that cannot happen
+        b.append('  static int depth_; if (depth_ >= 2) { __CPROVER_assert(0, "nesting bound of indirect calls"); __CPROVER_assume(0); }')
+        for f in cands:
+            if rt == 'void': b.append('  if (fp == (char*)&%s) { ++depth_; %s%s; --depth_; return; }' % (cname(f), cname(f), call))
+            else: b.append('  if (fp == (char*)&%s) { ++depth_; %s r_ = %s%s; --depth_; return r_; }' % (cname(f), rt, cname(f), call))
+        b.append('  __CPROVER_assert(0, "indirect call to an unknown function");')
+        b.append('  %s' % ('return;' if rt == 'void' else 'return (%s)0;' % rt if not rt.startswith('struct') else '{ %s z_ = {0}; return z_; }' % rt))
+        b.append('}')
+        bodies.append('\n'.join(b))
     out += protos
     out += bodies
     out.append('void ir2c_init_globals(void) {'); out += init_code; out.append('}')
